@@ -151,7 +151,7 @@ func c07ExtraRun(r *mon.Run) {
 				}
 				root, extra := pl.root(heir)
 				// every second case: the tables of the types hold objects of their own for the other types
-				p := project{Root: root, Types: append(types, extra...), OwnTables: idx%2 == 0}
+				p := project{Root: root, Types: append(types, extra...), OwnTables: idx%2 == 0, PartialTables: idx%3 == 1}
 				want := pl.example(wantEx)
 				key := fmt.Sprintf("placement %q, parent %q, variant %d", pl.name, par.name, variant)
 				cs := map[string]any{"kind": "placement", "project": p}
